@@ -7,6 +7,8 @@ STATUS_KW = "dict[{test_id: any; test_status: any; test_tags: ?anyset; runnable:
 
 def register(R):
     register_c11(R)
+    register_c11b(R)
+    register_c18b(R)
     # a downstream StreamResult: every call is one event in its ghost history; it does not raise
     R.shape("Stream",
             startTestRun=dict(event=True, returns="any"),
@@ -54,3 +56,112 @@ def register_c11(R):
                requires=["len(args) <= 2"], frame_hist=True, modifies=["$hist"],
                ensures=["HIST() == deliver(old(HIST()), listof(self.targets), call('status', args, old(dictof(kwargs))), len(listof(self.targets)))",
                         "dictof(kwargs) == old(dictof(kwargs))"])
+
+
+def register_c11b(R):
+    R.fields_of("StreamTagger", targets="list[Stream]", add="frozenset", discard="frozenset")
+    R.define("tg_in", ["K"], "ite(kwv(K, 'test_tags') is None, set(), setof(kwv(K, 'test_tags')))")
+    R.define("tg_out", ["s", "K"], "(tg_in(K) | setof(s.add)) - setof(s.discard)")
+    R.contract(RR + "StreamTagger.status", props=["C11"], params={"args": "tuple", "kwargs": STATUS_KW},
+               requires=["len(args) <= 2"], frame_hist=True, modifies=["$hist", "dict(kwargs)"],
+               context={"K": "dictof(kwargs)"},
+               # the only field that changes is test_tags; the forwarded set is a NEW object (never the caller's),
+               # None when empty; the caller's own set object is unchanged (frame obligations on $set)
+               ensures=["exists(lambda v: HIST() == deliver(old(HIST()), listof(self.targets), call('status', args, store(K, 'test_tags', v)), len(listof(self.targets)))"
+                        " and ((v is None) == (tg_out(self, K) == set()))"
+                        " and implies(v is not None, is_ref(v) and not allocated(v) and setof(v) == tg_out(self, K)))"])
+    R.library("datetime.datetime.now", signature="tz=None", returns="any", pure=True, ensures=["result is not None", "result is not absent()"])
+    R.fields_of("TimestampingStreamResult", targets="list[Stream]")
+    R.contract(RR + "TimestampingStreamResult.status", props=["C11"], params={"args": "tuple", "kwargs": STATUS_KW},
+               requires=["len(args) <= 2"], frame_hist=True, modifies=["$hist", "dict(kwargs)"],
+               context={"K": "dictof(kwargs)"},
+               ensures=[  # a supplied timestamp is forwarded unchanged
+                   "implies(kwv(K, 'timestamp') is not None, HIST() == deliver(old(HIST()), listof(self.targets), call('status', args, K), len(listof(self.targets))))",
+                   # a missing one (absent or None) is filled with a value that is not None; nothing else changes
+                   "implies(kwv(K, 'timestamp') is None, exists(lambda v: v is not None and v is not absent() and "
+                   "HIST() == deliver(old(HIST()), listof(self.targets), call('status', args, store(K, 'timestamp', v)), len(listof(self.targets)))))"])
+    R.shape("Callback", __call__=dict(event=True, returns="any"))
+    R.fields_of("StreamFailFast", on_error="Callback")
+    R.contract(RR + "StreamFailFast.status", props=["C11", "C04"],
+               params=dict(test_id="any", test_status="any", test_tags="any", runnable="any", file_name="any", file_bytes="any",
+                           eof="any", mime_type="any", route_code="any", timestamp="any"),
+               frame_hist=True, modifies=["hist(self.on_error)"],
+               ensures=["hist(self.on_error) == (snoc(old(hist(self.on_error)), call('__call__', [], {})) "
+                        "if (test_status == 'uxsuccess' or test_status == 'fail') else old(hist(self.on_error)))"])
+    R.shape("AQueue", put=dict(event=True, returns="any"))
+    R.fields_of("StreamToQueue", queue="AQueue", routing_code="str")
+    R.contract(RR + "StreamToQueue.route_code", props=["C11", "C18"], params={"route_code": "?str"}, pure=True, returns="str",
+               ensures=["result == (self.routing_code if route_code is None else self.routing_code + '/' + asstr(route_code))"])
+    R.contract(RR + "StreamToQueue.status", props=["C11"],
+               params=dict(test_id="any", test_status="any", test_tags="any", runnable="any", file_name="any", file_bytes="any",
+                           eof="any", mime_type="any", route_code="?str", timestamp="any"),
+               frame_hist=True, modifies=["hist(self.queue)"],
+               ensures=["exists(lambda rd: not allocated(rd) and hist(self.queue) == snoc(old(hist(self.queue)), call('put', [rd], {})) and "
+                        "dictof(rd) == {'event': 'status', 'test_id': test_id, 'test_status': test_status, 'test_tags': test_tags, "
+                        "'runnable': runnable, 'file_name': file_name, 'file_bytes': file_bytes, 'eof': eof, 'mime_type': mime_type, "
+                        "'route_code': (self.routing_code if route_code is None else self.routing_code + '/' + asstr(route_code)), 'timestamp': timestamp})"])
+    R.contract(RR + "StreamToQueue.startTestRun", props=["C11"], frame_hist=True, modifies=["hist(self.queue)"],
+               ensures=["exists(lambda rd: not allocated(rd) and hist(self.queue) == snoc(old(hist(self.queue)), call('put', [rd], {})) and "
+                        "dictof(rd) == {'event': 'startTestRun', 'result': self})"])
+    R.contract(RR + "StreamToQueue.stopTestRun", props=["C11"], frame_hist=True, modifies=["hist(self.queue)"],
+               ensures=["exists(lambda rd: not allocated(rd) and hist(self.queue) == snoc(old(hist(self.queue)), call('put', [rd], {})) and "
+                        "dictof(rd) == {'event': 'stopTestRun', 'result': self})"])
+
+
+def register_c18b(R):
+    R.contract(RR + "StreamResultRouter.startTestRun", props=["C18"], frame_hist=True, modifies=["$hist", "self._in_run"],
+               ensures=["HIST() == deliver(old(HIST()), listof(self._sinks), call('startTestRun', [], {}), len(listof(self._sinks)))",
+                        "self._in_run == True"],
+               loops={0: dict(invariant=["HIST() == deliver(old(HIST()), _seq, call('startTestRun', [], {}), _i)",
+                                         "_seq == old(listof(self._sinks))", "listof(self._sinks) == old(listof(self._sinks))"])})
+    R.contract(RR + "StreamResultRouter.stopTestRun", props=["C18"], frame_hist=True, modifies=["$hist", "self._in_run"],
+               ensures=["HIST() == deliver(old(HIST()), listof(self._sinks), call('stopTestRun', [], {}), len(listof(self._sinks)))",
+                        "self._in_run == False"],
+               loops={0: dict(invariant=["HIST() == deliver(old(HIST()), _seq, call('stopTestRun', [], {}), _i)",
+                                         "_seq == old(listof(self._sinks))", "listof(self._sinks) == old(listof(self._sinks))"])})
+    R.contract(RR + "StreamResultRouter.__init__", props=["C18"], params={"fallback": "?Stream", "do_start_stop_run": "bool"},
+               modifies=["self.fallback", "self._route_code_prefixes", "self._test_ids", "self._sinks", "self._in_run"],
+               ensures=["self.fallback is fallback", "self._in_run == False",
+                        "dictof(self._route_code_prefixes) == {}", "dictof(self._test_ids) == {}",
+                        "not allocated(self._sinks)", "not allocated(self._route_code_prefixes)", "not allocated(self._test_ids)",
+                        # the fallback takes part in start/stop iff requested (and present)
+                        "listof(self._sinks) == ([fallback] if (do_start_stop_run and fallback is not None) else [])"])
+    R.contract(RR + "StreamResultRouter._map_route_code_prefix", params={"sink": "Stream", "route_prefix": "str", "consume_route": "any"},
+               props=["C18"], modifies=["dict(self._route_code_prefixes)"],
+               exsures=["member('/', route_prefix)", "subclass_of(cls_of(exc), TypeError)",
+                        "dictof(self._route_code_prefixes) == old(dictof(self._route_code_prefixes))"],
+               ensures=["not member('/', route_prefix)",
+                        "dictof(self._route_code_prefixes) == store(old(dictof(self._route_code_prefixes)), route_prefix, (sink, consume_route))"])
+    R.contract(RR + "StreamResultRouter._map_test_id", params={"sink": "Stream", "test_id": "any"},
+               props=["C18"], modifies=["dict(self._test_ids)"],
+               ensures=["dictof(self._test_ids) == store(old(dictof(self._test_ids)), test_id, sink)"])
+    # add_rule: the policy table is the class-level dict filled in the class body
+    R.contract(RR + "StreamResultRouter.add_rule@route", props=["C18"],
+               params={"sink": "Stream", "policy": "str", "do_start_stop_run": "bool",
+                       "policy_args": "dict[{route_prefix: str; consume_route: any}]"},
+               requires=["policy == 'route_code_prefix'", "kwget(dictof(policy_args), 'route_prefix') is not absent()"],
+               frame_hist=True, modifies=["dict(self._route_code_prefixes)", "list(self._sinks)", "hist(sink)", "dict(policy_args)"],
+               exsures=["member('/', asstr(kwget(dictof(policy_args), 'route_prefix')))",
+                        "listof(self._sinks) == old(listof(self._sinks))", "hist(sink) == old(hist(sink))",
+                        "dictof(self._route_code_prefixes) == old(dictof(self._route_code_prefixes))"],
+               ensures=[
+                   "listof(self._sinks) == (old(listof(self._sinks)) + [sink] if do_start_stop_run else old(listof(self._sinks)))",
+                   # startTestRun is sent immediately iff the sink takes part in start/stop and a run is in progress
+                   "hist(sink) == (snoc(old(hist(sink)), call('startTestRun', [], {})) if (do_start_stop_run and self._in_run) else old(hist(sink)))",
+                   "dictof(self._route_code_prefixes) == store(old(dictof(self._route_code_prefixes)), kwget(dictof(policy_args), 'route_prefix'),"
+                   " (sink, ite(kwget(dictof(policy_args), 'consume_route') is absent(), False, kwget(dictof(policy_args), 'consume_route'))))",
+               ])
+    R.contract(RR + "StreamResultRouter.add_rule@bad", props=["C18"],
+               params={"sink": "Stream", "policy": "str", "do_start_stop_run": "bool", "policy_args": "dict"},
+               requires=["policy != 'route_code_prefix'", "policy != 'test_id'"],
+               frame_hist=True, modifies=["dict(policy_args)"],
+               exsures=["subclass_of(cls_of(exc), ValueError)", "hist(sink) == old(hist(sink))"],
+               ensures=["False"])
+    # push/pop: an event sent through StreamToQueue(code) and a consuming rule for code gets its route code back
+    # (stated over pure strings, split by case, so that cvc5 --strings-exp can take it: z3's sequence solver times out here)
+    R.lemma("route_push_pop_none", ["C18"], vars={"code": "str"}, background=False,
+            assumes=["not member('/', code)"],
+            goal="first_segment(code, '/') == code and len(code[len(code) + 1:]) == 0")
+    R.lemma("route_push_pop_some", ["C18"], vars={"code": "str", "rc": "str"}, background=False,
+            assumes=["not member('/', code)", "len(rc) > 0"],
+            goal="first_segment(code + '/' + rc, '/') == code and (code + '/' + rc)[len(code) + 1:] == rc")
